@@ -119,12 +119,30 @@ def eval_pass_first_round_is_some(F):
     # Ok(None) returns
     none_returns = []
     some_returns = []
+    flag_ok = None
     for bi, si, s in mir.stmts(f):
         rv = s["rv"]
         if s["lhs"]["l"] == 0 and not s["lhs"]["p"] and rv["k"] == "agg" and rv.get("variant") == "Ok":
             for o in mir.provenance(f, du, rv["ops"][0]):
                 if o.kind == "agg" and o.rv.get("adt", "").endswith("::Option"):
                     (none_returns if o.rv["variant"] == "None" else some_returns).append(bi)
+                elif o.kind == "call" and o.callee in ("std::bool::<impl bool>::then_some", "core::bool::<impl bool>::then_some") and o.term["args"]:
+                    # `Ok(changed.then_some(eval))`: None exactly when the flag is false.  The flag may be false only as the
+                    # result of comparing the new evaluation with the supplied previous one (on the Some edge of the match
+                    # on it); a literal `true` on the other edge is fine, a literal `false` is an unconditional None.
+                    good_flag = True
+                    for fo in mir.provenance(f, du, o.term["args"][0]):
+                        if fo.kind == "const" and fo.const.get("int") == 1:
+                            continue
+                        if fo.kind == "call" and fo.callee in ("std::cmp::PartialEq::ne",) and "CompiledTx" in ((fo.term.get("resolved") or "") + " ".join(fo.term.get("gargs") or [])):
+                            if any(some_t is not None and cfg.dominates(some_t, fo.bb) and (none_t is None or fo.bb not in cfg.reach_from(none_t)) for (_, none_t, some_t) in sw):
+                                continue
+                        good_flag = False
+                    flag_ok = good_flag if flag_ok is None else (flag_ok and good_flag)
+    if flag_ok is not None and not none_returns:
+        if flag_ok:
+            return True, "the result is `changed.then_some(eval)` and `changed` can be false only as the outcome of comparing the new evaluation with the supplied previous one", f
+        return False, "the pass function can report convergence (None) without having compared with a previous evaluation", f
     if not none_returns:
         return False, "eval_pass never returns Ok(None): the resolve loop cannot detect convergence", f
     for nb in none_returns:
